@@ -62,3 +62,13 @@ Theorem C12_zero_prediction_decodes_to_the_prior : forall invA k, Forall (fun ro
   nth i (raw_prevalence invA (repeat 0 k)) 0 == nth k (nth i invA []) 0.
 Proof. exact raw_prevalence_zero. Qed.
 Print Assumptions C12_far_rows_decode_near_the_prior.
+
+(* the order "decode every tree, then average" (what C01 / C12 state) is NOT interchangeable with "average the raw outputs, then decode": the decoder clamps.
+   Witness: two trees, binary zero/one decoding, eps = 1/1000, raw outputs 3/5 and 6/5: [0.2005; 0.7995] versus [0.1; 0.9]. *)
+Theorem C12_decoding_does_not_commute_with_the_mean_over_trees :
+  exists (eps : Q) (r1 r2 : list Q),
+    ~ Forall2 Qeq (mean_rows [probas_zero_one eps r1; probas_zero_one eps r2]) (probas_zero_one eps (mean_rows [r1; r2])).
+Proof.
+  exists (1 # 1000), [3 # 5], [6 # 5]. vm_compute. intros H. inversion H as [|a b la lb Hab _]; subst. vm_compute in Hab. discriminate Hab.
+Qed.
+Print Assumptions C12_decoding_does_not_commute_with_the_mean_over_trees.
